@@ -52,10 +52,13 @@ ORD_U = {"quick": [("1.0", 1.0), ("1", 1), ("a", "a"), ("f(b)", ("f", "b"))],
 ORD_EXTRA = [("0.5", 0.5), ("0", 0), ("b", "b"), ("g(a,b)", ("g", "a", "b"))]  # probes around the universe
 
 ASSOC_ALPHA = {
+    "int5xy": ([(str(i), i) for i in range(1, 6)], ["x", "y"]),
+    "mixed5xy": ([("0.5", 0.5), ("1", 1), ("a", "a"), ("f(a)", ("f", "a")), ('"a"', chars_list("a"))], ["x", "y"]),
+    "int6x": ([(str(i), i) for i in range(1, 7)], ["x"]),
+    "int7xy": ([(str(i), i) for i in range(1, 8)], ["x", "y"]),
     "int6xy": ([(str(i), i) for i in range(1, 7)], ["x", "y"]),
     "mixed6xy": ([("0.5", 0.5), ("1", 1), ("a", "a"), ("f(a)", ("f", "a")), ('"a"', chars_list("a")),
                   ("g(a,b)", ("g", "a", "b"))], ["x", "y"]),
-    "int8xy": ([(str(i), i) for i in range(1, 9)], ["x", "y"]),
     "int10x": ([(str(i), i) for i in range(1, 11)], ["x"]),
 }
 
@@ -66,13 +69,15 @@ def maxlen(tier):
 
 def bound_text(tier):
     n = maxlen(tier)
-    return ("all lists of length <= %d over 9 mixed elements x 3 routes; numeric lists of length <= %d over 8 numbers; "
+    return ("all lists of length <= %d over 9 mixed elements (length 5: literal route only; cons/bind routes and permutation/2: <= 4); numeric lists of length <= 4 over 8 numbers; "
             "all pairs of ordsets over a %d-element universe; library(assoc) closed to a fixpoint over %s"
-            % (n, n, len(ORD_U[tier]), ", ".join(assoc_alphas(tier))))
+            % (n, len(ORD_U[tier]), ", ".join(assoc_alphas(tier))))
 
 
 def assoc_alphas(tier):
-    return ["int6xy", "mixed6xy"] + (["int8xy", "int10x"] if tier == "thorough" else [])
+    if tier == "thorough":
+        return ["int7xy", "int10x", "int6xy", "mixed6xy", "int5xy", "mixed5xy", "int6x"]
+    return ["int5xy", "mixed5xy", "int6x"]
 
 
 def shards(tier):
@@ -83,6 +88,8 @@ def shards(tier):
     for route in ROUTES:
         sh.append(("list", route, 0, None, None))
         for ln in range(1, n + 1):
+            if ln >= 5 and route != "lit":
+                continue  # length 5 through the literal route only; cons and bind are bounded at 4
             for first in range(len(ELEMS)):
                 if ln >= 5:
                     for second in range(len(ELEMS)):
@@ -103,8 +110,11 @@ def shards(tier):
 
 
 def setup(w, tier):
+    import os
     w.consult(":- use_module(library(lists)).\n:- use_module(library(pairs)).\n"
               ":- use_module(library(ordsets)).\n:- use_module(library(assoc)).\n", persist=True)
+    with open(os.path.join(os.path.dirname(os.path.dirname(os.path.abspath(__file__))), "prolog", "c14_helper.pl")) as f:
+        w.consult(f.read(), persist=True)
 
 
 # --------------------------------------------------------------------------
@@ -165,8 +175,8 @@ def localise(text, j, keep=None):
 #   ("all", [solution templates], ordered)
 
 def list_observations(idx, route):
+    """-> (L, xs, [(name, expectation)]) in the result order of c14_list/7 (c14_helper.pl)"""
     xs = [ELEMS[i][1] for i in idx]
-    texts = [ELEMS[i][0] for i in idx]
     n = len(xs)
     L = mklist(xs)
     vs = M.term_vars(L)
@@ -174,17 +184,17 @@ def list_observations(idx, route):
     fr = M.Fresh()
     obs = []
 
-    def det(name, tmpl, goal, cands):
-        obs.append((name, localise("vx_first(%s,%s,%%s)" % (tmpl, goal), len(obs)), ("det", cands)))
+    def det(name, cands):
+        obs.append((name, ("det", cands)))
 
-    def nosol(name, tmpl, goal):
-        obs.append((name, localise("vx_first(%s,%s,%%s)" % (tmpl, goal), len(obs)), ("false",)))
+    def nosol(name):
+        obs.append((name, ("false",)))
 
-    def boolean(name, goal, vals):
-        obs.append((name, localise("vx_outcome(\\+ \\+ %s,%%s)" % goal, len(obs)), ("bool", vals)))
+    def boolean(name, vals):
+        obs.append((name, ("bool", vals)))
 
-    def allsol(name, tmpl, goal, sols, ordered=True, cap=300):
-        obs.append((name, localise("vx_all(%s,%s,%d,%%s,%%s)" % (tmpl, goal, cap), len(obs)), ("all", sols, ordered)))
+    def allsol(name, sols, ordered=True):
+        obs.append((name, ("all", sols, ordered)))
 
     def uniq(cands):
         out = []
@@ -193,115 +203,93 @@ def list_observations(idx, route):
                 out.append(c)
         return out
 
-    # sorting
-    sorted_c = uniq([mklist(M.sort_dedup(xs, vr)) for vr in orders])
-    det("sort", "S", "sort(L,S)", sorted_c)
-    det("list_to_ord_set", "S", "list_to_ord_set(L,S)", sorted_c)
-    boolean("is_ordset", "is_ordset(L)", set(M.is_ordset(xs, vr) for vr in orders))
     pairs = [("-", x, i + 1) for i, x in enumerate(xs)]
-    ptexts = ["%s-%d" % (t, i + 1) for i, t in enumerate(texts)]
-    ppre, ptxt = route_text(ptexts, route, "_P")
-    det("keysort", "S", "(%s PS0 = %s, keysort(PS0,S))" % (ppre, ptxt),
-        uniq([mklist(M.keysort(pairs, vr)) for vr in orders]))
-    det("list_to_set", "S", "list_to_set(L,S)", [mklist(M.list_to_set(xs))])
-    # basic
-    det("reverse", "R", "reverse(L,R)", [mklist(xs[::-1])])
-    det("reverse_back", "R", "reverse(R,L)", [mklist(xs[::-1])])
-    det("length", "N", "length(L,N)", [n])
-    det("same_length", "SL", "same_length(L,SL)", [mklist([fr() for _ in xs])])
-    det("same_length_back", "SL", "same_length(SL,L)", [mklist([fr() for _ in xs])])
-    # nth0 / nth1, index given
-    for k in range(0, n + 1):
-        if k < n:
-            det("nth0@%d" % k, "E", "nth0(%d,L,E)" % k, [xs[k]])
-            det("nth0/4@%d" % k, "E-R", "nth0(%d,L,E,R)" % k, [("-", xs[k], mklist(xs[:k] + xs[k + 1:]))])
-        else:
-            nosol("nth0@end", "E", "nth0(%d,L,E)" % k)
-            nosol("nth0/4@end", "E-R", "nth0(%d,L,E,R)" % k)
-        det("nth0/4ins@%d" % k, "L2", "nth0(%d,L2,z,L)" % k, [mklist(xs[:k] + ["z"] + xs[k:])])
-    nosol("nth0/4ins@end", "L2", "nth0(%d,L2,z,L)" % (n + 1))
-    for k in range(0, n + 2):
-        if 1 <= k <= n:
-            det("nth1@%d" % k, "E", "nth1(%d,L,E)" % k, [xs[k - 1]])
-            det("nth1/4@%d" % k, "E-R", "nth1(%d,L,E,R)" % k, [("-", xs[k - 1], mklist(xs[:k - 1] + xs[k:]))])
-        else:
-            nosol("nth1@%s" % ("0" if k == 0 else "end"), "E", "nth1(%d,L,E)" % k)
-            nosol("nth1/4@%s" % ("0" if k == 0 else "end"), "E-R", "nth1(%d,L,E,R)" % k)
-    # enumeration modes
-    allsol("nth0_enum", "s(L,N,E)", "nth0(N,L,E)", [("s", L, i, xs[i]) for i in range(n)])
-    allsol("nth1_enum", "s(L,N,E)", "nth1(N,L,E)", [("s", L, i + 1, xs[i]) for i in range(n)])
-    allsol("nth0/4_enum", "s(L,N,E,R)", "nth0(N,L,E,R)",
-           [("s", L, i, xs[i], mklist(xs[:i] + xs[i + 1:])) for i in range(n)])
-    allsol("nth1/4_enum", "s(L,N,E,R)", "nth1(N,L,E,R)",
-           [("s", L, i + 1, xs[i], mklist(xs[:i] + xs[i + 1:])) for i in range(n)])
-    allsol("nth0/4_ins_enum", "s(L,N,L2)", "nth0(N,L2,z,L)",
-           [("s", L, i, mklist(xs[:i] + ["z"] + xs[i:])) for i in range(n + 1)])
-    # append
-    allsol("append_split", "s(L,P,S)", "append(P,S,L)", [("s", L, mklist(xs[:i]), mklist(xs[i:])) for i in range(n + 1)])
-    det("append_end", "R", "append(L,[z],R)", [mklist(xs + ["z"])])
-    det("append_front", "R", "append([z],L,R)", [mklist(["z"] + xs)])
+    sorted_c = uniq([mklist(M.sort_dedup(xs, vr)) for vr in orders])
+    det("sort", sorted_c)                                   # sort(L,S)
+    det("list_to_ord_set", sorted_c)                        # list_to_ord_set(L,S)
+    boolean("is_ordset", set(M.is_ordset(xs, vr) for vr in orders))
+    det("keysort", uniq([mklist(M.keysort(pairs, vr)) for vr in orders]))   # keysort([E1-1,..,En-n],S)
+    det("list_to_set", [mklist(M.list_to_set(xs))])
+    det("reverse", [mklist(xs[::-1])])                      # reverse(L,R)
+    det("reverse_back", [mklist(xs[::-1])])                 # reverse(R,L)
+    det("length", [n])
+    det("same_length", [mklist([fr() for _ in xs])])        # same_length(L,S)
+    det("same_length_back", [mklist([fr() for _ in xs])])   # same_length(S,L)
+    for k in range(0, n + 1):                               # nth0(k,L,E)
+        det("nth0@%d" % k, [xs[k]]) if k < n else nosol("nth0@end")
+    for k in range(0, n + 1):                               # nth0(k,L,E,R)
+        det("nth0/4@%d" % k, [("-", xs[k], mklist(xs[:k] + xs[k + 1:]))]) if k < n else nosol("nth0/4@end")
+    for k in range(0, n + 2):                               # nth0(k,L2,z,L)
+        det("nth0/4ins@%d" % k, [mklist(xs[:k] + ["z"] + xs[k:])]) if k <= n else nosol("nth0/4ins@end")
+    for k in range(0, n + 2):                               # nth1(k,L,E)
+        det("nth1@%d" % k, [xs[k - 1]]) if 1 <= k <= n else nosol("nth1@%s" % ("0" if k == 0 else "end"))
+    for k in range(0, n + 2):                               # nth1(k,L,E,R)
+        (det("nth1/4@%d" % k, [("-", xs[k - 1], mklist(xs[:k - 1] + xs[k:]))]) if 1 <= k <= n
+         else nosol("nth1/4@%s" % ("0" if k == 0 else "end")))
+    allsol("nth0_enum", [("s", L, i, xs[i]) for i in range(n)])
+    allsol("nth1_enum", [("s", L, i + 1, xs[i]) for i in range(n)])
+    allsol("nth0/4_enum", [("s", L, i, xs[i], mklist(xs[:i] + xs[i + 1:])) for i in range(n)])
+    allsol("nth1/4_enum", [("s", L, i + 1, xs[i], mklist(xs[:i] + xs[i + 1:])) for i in range(n)])
+    allsol("nth0/4_ins_enum", [("s", L, i, mklist(xs[:i] + ["z"] + xs[i:])) for i in range(n + 1)])
+    allsol("append_split", [("s", L, mklist(xs[:i]), mklist(xs[i:])) for i in range(n + 1)])   # append(P,S,L)
+    det("append_end", [mklist(xs + ["z"])])                 # append(L,[z],R)
+    det("append_front", [mklist(["z"] + xs)])               # append([z],L,R)
     k = n // 2
-    pre_t = "[" + ",".join(texts[:k]) + "]"
-    suf_t = "[" + ",".join(texts[k:]) + "]"
-    det("append_suffix", "S", "append(%s,S,L)" % pre_t, [mklist(xs[k:])])
-    allsol("append_prefix", "s(L,P)", "append(P,%s,L)" % suf_t, [("s", L, mklist(xs[:k]))], ordered=False)
-    det("append/2", "R", "append([%s,[],%s],R)" % (pre_t, suf_t), [L])
-    # select / member
-    allsol("select_enum", "s(L,E,R)", "select(E,L,R)", [("s", L, xs[i], mklist(xs[:i] + xs[i + 1:])) for i in range(n)])
-    allsol("select_insert", "s(L,L0)", "select(z,L0,L)", [("s", L, mklist(xs[:i] + ["z"] + xs[i:])) for i in range(n + 1)])
+    det("append_suffix", [mklist(xs[k:])])                  # append(Pre,S,L)
+    allsol("append_prefix", [("s", L, mklist(xs[:k]))], ordered=False)   # append(P,Suf,L)
+    det("append/2", [L])                                    # append([Pre,[],Suf],R)
+    allsol("select_enum", [("s", L, xs[i], mklist(xs[:i] + xs[i + 1:])) for i in range(n)])   # select(E,L,R)
+    allsol("select_insert", [("s", L, mklist(xs[:i] + ["z"] + xs[i:])) for i in range(n + 1)])  # select(z,L0,L)
     for pat_t, pat in (("a", "a"), ("1", 1)):
-        sols = []
+        sols, msols = [], []
         for i in range(n):
             u = M.unify_simple(pat, xs[i])
             if u is not None:
                 sols.append(("s", M.subst(L, u), M.subst(mklist(xs[:i] + xs[i + 1:]), u)))
-        allsol("select_%s" % pat_t, "s(L,R)", "select(%s,L,R)" % pat_t, sols)
-        msols = []
-        for i in range(n):
-            u = M.unify_simple(pat, xs[i])
-            if u is not None:
                 msols.append(("s", M.subst(L, u)))
-        allsol("member_%s" % pat_t, "s(L)", "member(%s,L)" % pat_t, msols)
-        boolean("memberchk_%s" % pat_t, "memberchk(%s,L)" % pat_t, {bool(msols)})
-    allsol("member_enum", "s(L,E)", "member(E,L)", [("s", L, x) for x in xs])
-    # permutation
-    perms = [("s", L, mklist([xs[i] for i in p])) for p in itertools.permutations(range(n))]
-    allsol("permutation", "s(L,P)", "permutation(L,P)", perms, ordered=False)
+        allsol("select_%s" % pat_t, sols)                   # select(a,L,R)
+        allsol("member_%s" % pat_t, msols)                  # member(a,L)
+        boolean("memberchk_%s" % pat_t, {bool(msols)})
+    allsol("member_enum", [("s", L, x) for x in xs])
+    perms = [("s", L, mklist([xs[i] for i in p])) for p in itertools.permutations(range(n))] if n <= 4 else []
+    if n <= 4:
+        allsol("permutation", perms, ordered=False)         # permutation(L,P)
+    else:
+        obs.append(("permutation", ("skip",)))
     if n <= 3:
-        allsol("permutation_back", "s(L,P)", "permutation(P,L)", perms, ordered=False)
-    # pairs
-    idx_t = "[" + ",".join(str(i + 1) for i in range(n)) + "]"
+        allsol("permutation_back", perms, ordered=False)    # permutation(P,L)
+    else:
+        obs.append(("permutation_back", ("skip",)))
     P = mklist(pairs)
-    det("pairs_kv(-,+,+)", "Ps", "pairs_keys_values(Ps,L,%s)" % idx_t, [P])
-    det("pairs_kv(+,-,-)", "K-Vs", "(%s PS1 = %s, pairs_keys_values(PS1,K,Vs))" % (ppre, ptxt),
-        [("-", L, mklist([i + 1 for i in range(n)]))])
-    det("pairs_keys", "K", "(%s PS2 = %s, pairs_keys(PS2,K))" % (ppre, ptxt), [L])
-    det("pairs_values", "Vs", "(%s PS3 = %s, pairs_values(PS3,Vs))" % (ppre, ptxt), [mklist([i + 1 for i in range(n)])])
+    ints = mklist([i + 1 for i in range(n)])
+    det("pairs_kv(-,+,+)", [P])                             # pairs_keys_values(Ps,L,[1..n])
+    det("pairs_kv(+,-,-)", [("-", L, ints)])                # pairs_keys_values([E1-1,..],K,V)
+    det("pairs_keys", [L])
+    det("pairs_values", [ints])
     fvs = [fr() for _ in xs]
-    det("pairs_kv(-,+,-)", "Ps-Vs", "pairs_keys_values(Ps,L,Vs)", [("-", mklist([("-", x, f) for x, f in zip(xs, fvs)]), mklist(fvs))])
-    if n >= 1 and not any(isinstance(x, V) for x in xs):
-        nosol("pairs_kv_nonpair", "K-Vs", "pairs_keys_values(L,K,Vs)")
+    det("pairs_kv(-,+,-)", [("-", mklist([("-", x, f) for x, f in zip(xs, fvs)]), mklist(fvs))])
+    if any(isinstance(x, V) for x in xs):
+        obs.append(("pairs_kv_nonpair", ("skip",)))
+    elif n == 0:
+        allsol("pairs_kv_nonpair", [("-", NIL, NIL)])
+    else:
+        allsol("pairs_kv_nonpair", [])                      # pairs_keys_values(L,K,V): elements are not pairs
     return L, xs, obs
 
 
 def list_command(idx, route):
-    """-> (command text, L, xs, [(name, expectation, result var names)])"""
+    """-> (command text, L, xs, [(name, expectation)])"""
     L, xs, obs = list_observations(idx, route)
     texts = [ELEMS[i][0] for i in idx]
+    n = len(texts)
     pre, ltxt = route_text(texts, route)
-    goals = []
-    plan = []
-    for j, (name, gfmt, exp) in enumerate(obs):
-        if exp[0] == "all":
-            rv, sv = "Q%d" % j, "T%d" % j
-            goals.append(gfmt % (rv, sv))
-            plan.append((name, exp, (rv, sv)))
-        else:
-            rv = "Q%d" % j
-            goals.append(gfmt % rv)
-            plan.append((name, exp, (rv,)))
-    text = "g((%s L = %s, %s), 1)" % (pre, ltxt, ", ".join(goals))
-    return text, L, xs, plan
+    ptexts = ["%s-%d" % (t, i + 1) for i, t in enumerate(texts)]
+    ppre, ptxt = route_text(ptexts, route, "_P")
+    k = n // 2
+    text = ("g((%s L = %s, %s Ps = %s, c14_list(L,%d,Ps,[%s],[%s],[%s],Rs)), 1)"
+            % (pre, ltxt, ppre, ptxt, n, ",".join(texts[:k]), ",".join(texts[k:]),
+               ",".join(str(i + 1) for i in range(n))))
+    return text, L, xs, obs
 
 
 def parse_first(r):
@@ -319,11 +307,13 @@ def parse_first(r):
     return ("?", r)
 
 
-def judge_obs(exp, sol, rvars, obsL, absL):
-    """-> (label, violation kind or None, observed summary)"""
+def judge_obs(exp, res, obsL, absL):
+    """res: the result element of this observation -> (label, violation kind or None, observed summary)"""
     kind = exp[0]
+    if kind == "skip":
+        return ("skipped", None, None)
     if kind in ("det", "false", "bool"):
-        k, p = parse_first(sol.get(rvars[0]))
+        k, p = parse_first(res)
         if k == "error":
             return ("error", "unexpected_error:" + px.formal_sig(p), fmt_obs(p))
         if k in ("ball", "?"):
@@ -345,8 +335,10 @@ def judge_obs(exp, sol, rvars, obsL, absL):
                 return (k, None, None)
             return (k, "wrong_truth_value", k)
     if kind == "all":
-        sols, _ = unlist(sol.get(rvars[0]))
-        st = sol.get(rvars[1])
+        if not (isinstance(res, tuple) and res[0] == "all" and len(res) == 3):
+            return ("?", "bad_result_term", fmt_obs(res))
+        sols, _ = unlist(res[1])
+        st = res[2]
         if st != "done":
             if isinstance(st, tuple) and st[0] == "error":
                 return ("error", "unexpected_error:" + px.formal_sig(st[1]), fmt_obs(st[1]))
@@ -392,6 +384,8 @@ def exp_text(exp):
         return " | ".join(fmt(c) for c in exp[1])
     if exp[0] == "false":
         return "fails"
+    if exp[0] == "skip":
+        return "not compared"
     if exp[0] == "bool":
         return "/".join(sorted(str(b).lower() for b in exp[1]))
     return "[" + "; ".join(fmt(s) for s in exp[1][:8]) + ("]" if exp[2] else "] (any order)")
@@ -425,10 +419,18 @@ def run_list_case(w, idx, route, acc, only=None):
         return [v]
     sol = r.sols[0]
     obsL = sol.get("L")
-    for name, exp, rvars in plan:
+    results, _ = unlist(sol.get("Rs"))
+    if len(results) != len(plan):
+        v = {"sig": "list command route=%s/%s result_count" % (route, shape), "case": dict(base, op="*"),
+             "expected": "%d results" % len(plan), "observed": "%d results" % len(results)}
+        if acc is not None:
+            acc.case(nt, "abnormal")
+            acc.violation(v["sig"], v["case"], v["expected"], v["observed"])
+        return [v]
+    for (name, exp), res in zip(plan, results):
         if only is not None and name != only:
             continue
-        label, vk, observed = judge_obs(exp, sol, rvars, obsL, L)
+        label, vk, observed = judge_obs(exp, res, obsL, L)
         if acc is not None:
             acc.case(nt, "%s:%s" % (op_class(name), label),
                      sample={"list": fmt(L), "route": route, "op": name, "expected": exp_text(exp)})
@@ -607,7 +609,8 @@ def run_generic(w, items, acc, fam):
                 if vk:
                     c = dict(case, op=op)
                     c.pop("only", None)
-                    v = {"sig": "%s %s %s" % (fam, op.split("@")[0], vk), "case": c, "expected": et, "observed": ot}
+                    v = {"sig": "%s %s%s %s" % (fam, op.split("@")[0], "/" + c["shape"] if c.get("shape") else "", vk),
+                         "case": c, "expected": et, "observed": ot}
                     viols.append(v)
                     if acc is not None:
                         acc.violation(v["sig"], v["case"], v["expected"], v["observed"])
@@ -702,7 +705,7 @@ def ordlists_items(tier):
             lt = "[" + ",".join(u[i][0] for i in idx) + "]"
             ops = {"is_ordset": ("bool", "is_ordset(%s)" % lt, M.is_ordset(xs, {})),
                    "list_to_ord_set": ("det", "S", "list_to_ord_set(%s,S)" % lt, sset(M.sort_dedup(xs, {})))}
-            items.append(({"fam": "ordlists", "u": len(u), "idx": list(idx)}, "", ops, len(set(idx)) < len(idx) or ln > 1))
+            items.append(({"fam": "ordlists", "u": len(u), "idx": list(idx), "shape": shape_of(xs, "lit")}, "", ops, len(set(idx)) < len(idx) or ln > 1))
     for t in ("a", "[1|T]", "[1|a]", "f(x)", "_"):
         items.append(({"fam": "ordlists", "u": len(u), "raw": t}, "", {"is_ordset": ("bool", "is_ordset(%s)" % t, False)}, True))
     return items
@@ -771,6 +774,13 @@ def misc_items(tier):
         "keysort_check_true": ("bool", "keysort([b-1,a-2,b-3],[a-2,b-1,b-3])", True),
         "keysort_check_false": ("bool", "keysort([b-1,a-2,b-3],[a-2,b-3,b-1])", False),
         "keysort_keeps_dups": ("det", "S", "keysort([1-a,1-a],S)", mklist([("-", 1, "a"), ("-", 1, "a")])),
+    })
+    add("assoc_errors", {
+        "list_to_assoc_duplicate_keys": ("err", "A", "list_to_assoc([a-1,b-2,a-3],A)", "domain_error"),
+        "ord_list_to_assoc_unordered": ("err", "A", "ord_list_to_assoc([b-1,a-2],A)", "domain_error"),
+        "ord_list_to_assoc_duplicate": ("err", "A", "ord_list_to_assoc([a-1,a-2],A)", "domain_error"),
+        "get_assoc_not_an_assoc": ("err", "V", "get_assoc(k,foo,V)", "type_error"),
+        "ord_list_to_assoc_ok": ("det", "A", "ord_list_to_assoc([a-1,b-2],A)", ("t", "b", 2, "<", ("t", "a", 1, "-", "t", "t"), "t")),
     })
     fr = M.Fresh()
     lops = {}
@@ -849,25 +859,6 @@ def apply_trans(items, tr):
     raise ValueError(kind)
 
 
-def trans_goal(tr, ktext, items):
-    """-> (template, goal) with A bound to the state term"""
-    kind = tr[0]
-    if kind == "put":
-        return "B", "put_assoc(%s,A,%s,B)" % (ktext[tr[1]], tr[2])
-    if kind == "del":
-        return "B-V", "del_assoc(%s,A,V,B)" % ktext[tr[1]]
-    if kind == "delmin":
-        return "B-(K-V)", "del_min_assoc(A,K,V,B)"
-    if kind == "delmax":
-        return "B-(K-V)", "del_max_assoc(A,K,V,B)"
-    if kind == "replace":
-        return "B-V", "get_assoc(%s,A,V,B,%s)" % (ktext[tr[1]], tr[2])
-    pl = "[" + ",".join("%s-%s" % (ktext[k], v) for k, v in (items[::-1] if kind == "rebuild" else items)) + "]"
-    if kind == "rebuild":
-        return "B", "list_to_assoc(%s,B)" % pl
-    return "B", "ord_list_to_assoc(%s,B)" % pl
-
-
 class KeyText(dict):
     """abstract key -> source text (keys are hashable but 1 == 1.0 in Python)"""
 
@@ -940,13 +931,23 @@ def restructured(A, B, tr):
 
 
 def observer_goal(keys, items, ktext):
-    kt = "[" + ",".join(t for t, _ in keys) + ",0,zz]"
-    return ("vx_first(L1,assoc_to_list(A,L1),Ol), vx_first(L2,assoc_to_keys(A,L2),Ok), vx_first(L3,assoc_to_values(A,L3),Ov), "
-            "vx_first(K1-V1,max_assoc(A,K1,V1),Omax), vx_first(K2-V2,min_assoc(A,K2,V2),Omin), "
-            "vx_all(K3-V3,gen_assoc(K3,A,V3),40,Og,Tg), "
-            "vx_all(K4-V4,(member(K4,%s),get_assoc(K4,A,V4)),40,Oget,Tget), "
-            "vx_all(K5-V5,(member(K5,%s),gen_assoc(K5,A,V5)),40,Ogg,Tgg), "
-            "vx_outcome(is_assoc(A),Ois), vx_outcome(empty_assoc(A),Oe)" % (kt, kt))
+    return "c14_assoc_obs(A,[%s,0,zz],Rs)" % ",".join(t for t, _ in keys)
+
+
+OBS_ORDER = ["Ol", "Ok", "Ov", "Omax", "Omin", "Og", "Oget", "Ogg", "Ois", "Oe"]
+
+
+def observer_sol(sol):
+    """Rs of c14_assoc_obs -> the dict judge_observers reads"""
+    rs, _ = unlist(sol.get("Rs"))
+    d = {}
+    for name, r in zip(OBS_ORDER, rs):
+        if isinstance(r, tuple) and r[0] == "all" and len(r) == 3:
+            d[name] = r[1]
+            d["T" + name[1:]] = r[2]
+        else:
+            d[name] = r
+    return d
 
 
 def judge_observers(sol, keys, items):
@@ -1012,7 +1013,7 @@ def run_assoc(w, alpha, acc, tier):
                     acc.violation("assoc observers %s" % what, {"fam": "assoc", "alpha": alpha, "history": hist, "obs": "*"},
                                   "one record", repr(r)[:300])
                     continue
-                bad = judge_observers(r.sols[0], keys, items)
+                bad = judge_observers(observer_sol(r.sols[0]), keys, items)
                 acc.case(bool(items), "observers:%s" % ("ok" if not bad else "bad"),
                          sample={"assoc": fmt(t), "observers": "assoc_to_list/keys/values, max/min/gen/get_assoc, is_assoc"})
                 for name, kind, et, ot in bad:
@@ -1024,11 +1025,7 @@ def run_assoc(w, alpha, acc, tier):
         for batch in px.chunked(frontier, 40):
             texts = []
             for t, items, hist in batch:
-                goals = []
-                for j, tr in enumerate(trs):
-                    tmpl, goal = trans_goal(tr, ktext, items)
-                    goals.append(localise("vx_all(%s,%s,3,%%s,%%s)" % (tmpl, goal), j, keep={"A"}) % ("Q%d" % j, "T%d" % j))
-                texts.append("g((A = %s, %s), 1)" % (fmt(t), ", ".join(goals)))
+                texts.append(step_command(t, items, keys, vals, ktext))
             rs = px.run_goals(w, texts)
             for (t, items, hist), r in zip(batch, rs):
                 if r.abn or len(r.sols) != 1:
@@ -1037,10 +1034,15 @@ def run_assoc(w, alpha, acc, tier):
                     acc.violation("assoc expand %s" % what, {"fam": "assoc", "alpha": alpha, "history": hist, "tr": None},
                                   "one record", repr(r)[:300])
                     continue
-                sol = r.sols[0]
+                results, _ = unlist(r.sols[0].get("Rs"))
+                if len(results) != len(trs):
+                    acc.case(True, "transition:abnormal")
+                    acc.violation("assoc expand result_count", {"fam": "assoc", "alpha": alpha, "history": hist, "tr": None},
+                                  "%d results" % len(trs), "%d results" % len(results))
+                    continue
                 for j, tr in enumerate(trs):
                     ntrans += 1
-                    v, B, label, nt = judge_transition(sol, j, tr, t, items, ktext)
+                    v, B, label, nt = judge_transition(results[j], tr, t, items, ktext)
                     acc.case(nt, "%s:%s" % (tr[0], label),
                              sample={"assoc": fmt(t), "transition": tr_name(tr, ktext)})
                     if v:
@@ -1066,10 +1068,19 @@ def run_assoc(w, alpha, acc, tier):
     acc.extra["assoc_states_%s" % alpha] = nstates
 
 
-def judge_transition(sol, j, tr, A, items, ktext):
-    """-> (violation (kind, expected, observed) | None, result term | None, label, nontrivial)"""
-    sols, _ = unlist(sol.get("Q%d" % j))
-    st = sol.get("T%d" % j)
+def step_command(t, items, keys, vals, ktext):
+    """all transitions from state t in the order of assoc_transitions() (= c14_assoc_step/6)"""
+    return ("g((A = %s, c14_assoc_step(A,[%s],[%s],%s,[%s],Rs)), 1)"
+            % (fmt(t), ",".join(kt for kt, _ in keys), ",".join(vals), vals[-1],
+               ",".join("%s-%s" % (ktext[k], v) for k, v in items)))
+
+
+def judge_transition(res, tr, A, items, ktext):
+    """res = all(Sols, Status) -> (violation (kind, expected, observed) | None, result term | None, label, nontrivial)"""
+    if not (isinstance(res, tuple) and res[0] == "all" and len(res) == 3):
+        return (("bad_result_term", "all(Sols,Status)", fmt_obs(res)), None, "?", True)
+    sols, _ = unlist(res[1])
+    st = res[2]
     want_items, extra = apply_trans(items, tr)
     if st != "done":
         et = "fails" if want_items is None else "one solution"
@@ -1112,13 +1123,15 @@ def replay_assoc(w, case):
     t, items = "t", []
     steps = [tr_of(j) for j in case["history"]]
     last = tr_of(case["tr"]) if case.get("tr") else None
+    trs = assoc_transitions(keys, vals)
     for tr in steps + ([last] if last else []):
-        tmpl, goal = trans_goal(tr, ktext, items)
-        r = px.run_goals(w, ["g((A = %s, vx_all(%s,%s,3,Q0,T0)), 1)" % (fmt(t), tmpl, goal)])[0]
+        r = px.run_goals(w, [step_command(t, items, keys, vals, ktext)])[0]
         if r.abn or len(r.sols) != 1:
             what = r.abn or ("exc:" + px.formal_sig(r.formal()) if r.status == "exc" else "command_failed")
             return {"sig": "assoc expand %s" % what, "case": case, "expected": "one record", "observed": repr(r)[:300]}
-        v, B, label, nt = judge_transition(r.sols[0], 0, tr, t, items, ktext)
+        results, _ = unlist(r.sols[0].get("Rs"))
+        j = [tr_json(x, ktext) for x in trs].index(tr_json(tr, ktext))
+        v, B, label, nt = judge_transition(results[j], tr, t, items, ktext)
         if v:
             return {"sig": "assoc %s %s" % (tr[0], v[0]), "case": case, "expected": v[1], "observed": v[2]}
         if B is None:
@@ -1130,7 +1143,7 @@ def replay_assoc(w, case):
         if r.abn or len(r.sols) != 1:
             what = r.abn or ("exc:" + px.formal_sig(r.formal()) if r.status == "exc" else "command_failed")
             return {"sig": "assoc observers %s" % what, "case": case, "expected": "one record", "observed": repr(r)[:300]}
-        for name, kind, et, ot in judge_observers(r.sols[0], keys, items):
+        for name, kind, et, ot in judge_observers(observer_sol(r.sols[0]), keys, items):
             if case["obs"] in ("*", name):
                 return {"sig": "assoc observer %s %s" % (name, kind), "case": case, "expected": et, "observed": ot}
     return None
@@ -1182,14 +1195,14 @@ def recheck(w, case, tier):
     if fam == "assoc":
         return replay_assoc(w, case)
     # generic families: regenerate the item with the same identifying fields (both tiers' universes are tried)
-    ident = dict((k, v) for k, v in case.items() if k != "op")
+    ident = dict((k, v) for k, v in case.items() if k not in ("op", "shape"))
     for t in ("quick", "thorough"):
         if fam == "ordpair":
             items = ordpair_items(t, case["a"], case["a"] + 1) if case["a"] < (1 << len(ORD_U[t])) else []
         else:
             items = generic_items(fam, t)
         for c, pre, ops, nt in items:
-            if c == ident:
+            if dict((k, v) for k, v in c.items() if k != "shape") == ident:
                 if case["op"] != "*" and case["op"] not in ops:
                     continue
                 vs = run_generic(w, [(dict(c, only=None if case["op"] == "*" else case["op"]), pre, ops, nt)], None, fam)
